@@ -28,7 +28,8 @@ constructors.  Name resolution itself is the `Names` layer (C04/C07), C3 the `Mr
 
 The model follows the code as fixed by cb98646 (a superseded duplicate `'x 0'` is not visible:
 `isVisible` requires the object to be its parent's `contents` entry), aaed9bd (`taglink` renders the plain
-label when the target is not visible: `taglinkGuard`), 4b6324b (the index pages skip hidden roots), 1da744b (`format_docstring` renders under
+label when the target is not visible: `taglinkGuard`), 4b6324b (the index pages skip hidden roots), f972163 (`reparent` refreshes the linker's page), a09aa28 (`IndexPage`
+also when no root is visible), 5201211 (no root alias over a summary page), 1da744b (`format_docstring` renders under
 `switch_context(obj)`), 97be2c0 (`findRootClasses` appends a root class to the list already stored under
 its name), 07382d3 (`reparent` updates `parentMod` of what is inside a moved class; `modul` is input).
 `requests s` = every `taglink` call / listing entry the page code makes; `emits s` = what is left of them
@@ -91,9 +92,8 @@ structure Obj where
   /-- resolved targets of the links made through the object's own `docstring_linker`: default values of
   parameters, decorators, constant values (`_ValueFormatter`, `format_decorators`, `format_constant_value`) -/
   valrefs : List Nat
-  /-- `ob.docstring_linker._page_object` at render time: that linker is created while the module is visited
-  (`_ValueFormatter.__init__`) and `reparent` does not refresh it: for a re-exported function this is the
-  page of the module it was defined in -/
+  /-- `ob.docstring_linker._page_object` at render time (input; read by `valLinksOld` only: before f972163
+  `reparent` did not refresh it and for a re-exported function it was the page of the defining module) -/
   ownCtx : Option Nat
   /-- `cls.baseobjects` -/
   bases : List (Option Nat)
@@ -254,11 +254,20 @@ def reached (s : Sys) : List Nat := s.roots.flatMap (docsFor s s.n)
 /-- the objects a page file is written for -/
 def pages (s : Sys) : List Nat := (reached s).filter fun i => (s.ob i).kind.ownPage
 
-/-- `summary.summaryPages(system)` + `search.searchpages`: `IndexPage` only with several roots -/
+/-- `summary.summaryPages`: `IndexPage` is written with several roots, and (since a09aa28) when no root is
+visible — a single hidden root leaves no page at index.html, which every summary page links to -/
+def hasIndexPage (s : Sys) : Bool := (rootNames s).length > 1 || !(s.roots.any (visible s))
+
+/-- `summary.summaryPages(system)` + `search.searchpages` -/
 def summaryFiles (s : Sys) : List File :=
   [.summary .moduleIndex, .summary .classIndex, .summary .nameIndex, .summary .undocced]
-    ++ (if (rootNames s).length > 1 then [.index] else [])
+    ++ (if hasIndexPage s then [.index] else [])
     ++ [.summary .allDocuments]
+
+/-- file names (without `.html`) of the summary and search pages -/
+def summaryStems : List (List Char) :=
+  ["moduleIndex".toList, "classIndex".toList, "nameIndex".toList, "undoccedSummary".toList, "index".toList,
+   "all-documents".toList]
 
 def pageFiles (s : Sys) : List File := (pages s).map (pageFile s)
 
@@ -266,7 +275,10 @@ def pageFiles (s : Sys) : List File := (pages s).map (pageFile s)
 is (later) written -/
 def aliasFiles (s : Sys) : List File :=
   match rootNames s with
-  | [r] => if (summaryFiles s ++ pageFiles s).contains .index then [.page r] else []
+  | [r] =>
+    -- e061b2d / 5201211: no alias when `<root>.html` is the name of a summary page (it would replace it)
+    if summaryStems.contains r then []
+    else if (summaryFiles s ++ pageFiles s).contains .index then [.page r] else []
   | _ => []
 
 /-- files of the output directory that exist (and lead somewhere) after the run -/
@@ -387,12 +399,13 @@ def annLinks (s : Sys) (page : File) (o : Nat) : List Emit :=
   | none => []
   | some op => (s.ob o).annrefs.map (link .annXref page (some (pageFile s op)))
 
-/-- links of default values, decorators and constant values: `link_to` of the object's own linker, whose
-remembered page object is NOT switched (`_ValueFormatter.__repr__`, `format_decorators`) -/
+/-- links of default values, decorators and constant values: `link_to` of the object's own linker
+(`_ValueFormatter.__repr__`, `format_decorators`, `format_constant_value`). That linker is created while the
+module is visited; since f972163 `reparent` refreshes its page object, so it is the page the object is shown on. -/
 def valLinks (s : Sys) (page : File) (o : Nat) : List Emit :=
-  match (s.ob o).ownCtx with
-  | none => (s.ob o).valrefs.map (link .valXref page none)
-  | some c => (s.ob o).valrefs.map (link .valXref page (some (pageFile s c)))
+  match pageObject s o with
+  | none => []
+  | some op => (s.ob o).valrefs.map (link .valXref page (some (pageFile s op)))
 
 /-- `get_override_info(cls, member_name, page_url)` -/
 def overrideInfo (s : Sys) (pf : File) (c : Nat) (nm : Name) : List Emit :=
@@ -572,7 +585,7 @@ def summaryEmits (s : Sys) : List Emit :=
   ++ classIndexEmits s
   ++ (visibleAll s).map (fun o => entry .nameIndex (.summary .nameIndex) (some (.summary .nameIndex)) o (ctxPrivate s o))
   ++ ((visibleAll s).filter fun o => !(s.ob o).hasDoc).map (link .undoc (.summary .undocced) (some (.summary .undocced)))
-  ++ (if (rootNames s).length > 1 then (s.roots.filter (visible s)).map (link .indexRoots .index (some .index)) else [])
+  ++ (if hasIndexPage s then (s.roots.filter (visible s)).map (link .indexRoots .index (some .index)) else [])
   ++ (visibleAll s).flatMap (fun o =>
         entry .allDocs (.summary .allDocuments) none o ((s.ob o).privacy == .priv)
         :: sumLinks s .allDocsSum (.summary .allDocuments) o)
@@ -753,6 +766,16 @@ visibility test (after aaed9bd the row of a hidden root was written with its nam
 def rootRowsOld (s : Sys) : List Emit :=
   (s.roots.flatMap (moduleSummary s s.n true)
     ++ (if (rootNames s).length > 1 then s.roots.map (link .indexRoots .index (some .index)) else [])).filterMap (taglinkGuard s)
+
+/-- `valLinks` before f972163: the linker kept the page object it was created with (`ownCtx`), for a
+re-exported function the page of the module it was defined in -/
+def valLinksOld (s : Sys) (page : File) (o : Nat) : List Emit :=
+  match (s.ob o).ownCtx with
+  | none => (s.ob o).valrefs.map (link .valXref page none)
+  | some c => (s.ob o).valrefs.map (link .valXref page (some (pageFile s c)))
+
+/-- before a09aa28 `IndexPage` was written with several roots only -/
+def hasIndexPageOld (s : Sys) : Bool := (rootNames s).length > 1
 
 def classIndexListedOld (s : Sys) : List Nat :=
   ((classes s).foldl (rootStepOld s) []).flatMap fun kv => kv.2.classes.flatMap (subclassesFromOld s s.n)
